@@ -332,6 +332,16 @@ impl<'c, KD: Kind, const N: usize> MapEng<'c, KD, N> {
                 Err(p) => {
                     fault = unexpected(cx, liar, P11.and(Prop::C03), p);
                     self.lib_panicked = true;
+                    if fault && !liar && tl::fuse_fired() == Some(Cb::Closure) && matches!(msub, 1 | 2) && present.is_none() {
+                        // The injected panic came out of the user's `default` closure of a vacant
+                        // entry: no value was ever produced. The direct-operation equivalent
+                        // (`if !contains_key(k) { let v = f(); insert(k, v) }`) leaves the map
+                        // exactly as it was, so must the entry path.
+                        let post = Self::observe(&slot.c).unwrap_or_default();
+                        let same = post.len() == slot.model.len() && slot.c.m.len() == slot.model.len() && post.iter().all(|o| slot.model.get(&o.raw).map(|e| e.val == o.val && (!KD::IDENT || (e.kid == o.kid && e.vid == o.vid))).unwrap_or(false));
+                        cx.bump(S::entry_closure_panics);
+                        cx.chk(P11, same, "closure-panic", || format!("{name}: the closure of a vacant entry panicked, yet the map changed (len {} -> {}, iteration yields {} entries)", slot.model.len(), slot.c.m.len(), post.len()));
+                    }
                 }
             }
             if mutated {
